@@ -1,0 +1,98 @@
+//go:build verif
+// +build verif
+
+// Package verif contains instrumentation hooks that are only compiled in when
+// the "verif" build tag is set. Without the tag every function in this package
+// is an empty function that the compiler inlines away.
+package verif
+
+import (
+	"fmt"
+	"runtime"
+	"strconv"
+	"strings"
+	"sync"
+	"sync/atomic"
+)
+
+const Enabled = true
+
+type sinkFn func(ev string, gid int64, kv []interface{})
+type gateFn func(name string, key string) string
+
+var sink atomic.Value
+var gate atomic.Value
+var procs sync.Map
+
+// SetSink installs the function that receives every event. The sink is called
+// synchronously at the hook site (i.e. while the caller still holds whatever
+// lock protects the state change that is being reported).
+func SetSink(fn func(ev string, gid int64, kv []interface{})) {
+	sink.Store(sinkFn(fn))
+}
+
+// SetGate installs the function that is called at every gate. A gate may
+// block (which makes it usable as a scheduler) and may return a command
+// string (e.g. "panic") that the hook site interprets.
+func SetGate(fn func(name string, key string) string) {
+	gate.Store(gateFn(fn))
+}
+
+// SetProc installs a named projection callback (used to hand internal state
+// to code outside of this module without exposing internal types).
+func SetProc(name string, fn func(data interface{})) {
+	if fn == nil {
+		procs.Delete(name)
+	} else {
+		procs.Store(name, fn)
+	}
+}
+
+func HasProc(name string) bool {
+	_, ok := procs.Load(name)
+	return ok
+}
+
+func Proc(name string, data interface{}) {
+	if fn, ok := procs.Load(name); ok {
+		fn.(func(interface{}))(data)
+	}
+}
+
+func Event(ev string, kv ...interface{}) {
+	if fn, ok := sink.Load().(sinkFn); ok && fn != nil {
+		fn(ev, GoID(), kv)
+	}
+}
+
+func Gate(name string, key string) string {
+	if fn, ok := gate.Load().(gateFn); ok && fn != nil {
+		return fn(name, key)
+	}
+	return ""
+}
+
+// GatePanic is a fault-injection point: the gate can ask for a panic here
+func GatePanic(name string, key string) {
+	if Gate(name, key) == "panic" {
+		panic("verif: injected fault at " + name + " " + key)
+	}
+}
+
+func ID(ptr interface{}) string {
+	return fmt.Sprintf("%p", ptr)
+}
+
+func GoID() int64 {
+	var buf [64]byte
+	n := runtime.Stack(buf[:], false)
+	fields := strings.Fields(string(buf[:n]))
+	if len(fields) < 2 {
+		return -1
+	}
+	id, err := strconv.ParseInt(fields[1], 10, 64)
+	if err != nil {
+		return -1
+	}
+	return id
+}
